@@ -366,6 +366,8 @@ struct vec_T BS_GRIDMEM[BS_NG];
 size_t BS_GRID_NEXT;
 bool BS_GEQ[BS_NG][BS_NG];
 size_t BS_GEQ_W[BS_NG][BS_NG];
+bool BS_SORTED[BS_NG];
+size_t BS_SORTED_W[BS_NG];
 #include "%(root)s/rt/spec.h"
 // ---- the ghost heap <-> real shared pointers
 static std::map<size_t, std::shared_ptr<const std::vector<T>>> heap_real;
@@ -409,6 +411,10 @@ static void geq_from_contents() {
     size_t w = 0;
     for (size_t k = 0; eq && k < BS_GRIDMEM[i].n && k < BS_CAP; k++) if (BS_GRIDMEM[i].d[k] != BS_GRIDMEM[j].d[k]) { eq = false; w = k; }
     BS_GEQ[i][j] = eq; BS_GEQ_W[i][j] = w; }
+  for (size_t i = 0; i < BS_NG; i++) {
+    bool inc = true; size_t w = 0;
+    for (size_t k = 0; k + 1 < BS_GRIDMEM[i].n && k + 1 < BS_CAP; k++) if (!(BS_GRIDMEM[i].d[k] < BS_GRIDMEM[i].d[k + 1])) { inc = false; w = k; }
+    BS_SORTED[i] = inc; BS_SORTED_W[i] = w; }
 }
 #define __CPROVER_return_value bs_ret
 int main() {
